@@ -14,7 +14,7 @@
  *   F <exit> <hexout> <hexerr>      outcome otherwise
  *   NOISE <o|e> <salt> <mod>        append "noise=<h%mod>\n" to stdout/stderr
  *   DELAY <salt> <n> <ms>...        sleep ms[h % n] before answering
- *   FAULT <salt> <mod> <n> <cls>:<kind>...   kind: s(leep) p(spin) a(lloc) v(segv) k(ill)
+ *   FAULT <salt> <mod> <n> <cls>:<kind>...   kind: s(leep) p(spin) a(lloc) v(segv) k(ill) w(rapper with hanging child) w(rapper with hanging child)
  *   DIRECTIVE                       (behave <role> <exit> "<out>" "<err>") in the file wins
  * Hex strings may be "-" for the empty string.
  *
@@ -169,6 +169,11 @@ int main(int argc, char **argv) {
   if (delay_ms > 0) usleep((useconds_t)delay_ms * 1000);
   switch (fault) {
     case 's': for (;;) sleep(1000);
+    case 'w': { /* wrapper script: the hanging solver is a child that inherits our pipes */
+      pid_t c = fork();
+      if (c == 0) { execlp("sleep", "sleep", "987654", (char *)NULL); _exit(1); }
+      for (;;) sleep(1000);
+    }
     case 'p': { volatile unsigned long x = 0; for (;;) x++; }
     case 'a': { for (;;) { char *m = malloc(1 << 22); if (!m) abort(); memset(m, 1, 1 << 22); } }
     case 'v': raise(SIGSEGV); break;
